@@ -15,7 +15,7 @@ use crate::{
 
 pub fn run(ctx: &mut Ctx) {
     let scratch = Scratch::new();
-    for case in ctx.cases(600, 60_000) {
+    for case in ctx.cases(3_000, 200_000) {
         let mut rng = ctx.rng(case);
         match case % 3 {
             0 | 1 => history_case(ctx, case, &mut rng, &scratch),
